@@ -111,6 +111,15 @@ def make_pair(rng, kind, P):
             return None
         return (lambda: solve(f, x0, Bounds(lb, ub), [LinearConstraint(A, -INF, b)] + nl, opts, ident),
                 lambda: solve(f, x0, Bounds(lb, ub), [LinearConstraint(A[:1], -INF, b[:1]), LinearConstraint(A[1:], -INF, b[1:])] + nl, opts, ident))
+    if kind == "regroup-mixed":
+        # one object mixing an equality row with one-sided rows vs the same rows as separate objects
+        row = np.array([[dy(rng, -1, 1, 4) for _ in range(n)]])
+        val = np.array([dy(rng, -1, 1, 4)])
+        A2 = np.vstack([row, A]) if len(b) else np.vstack([row, np.array([[dy(rng, -1, 1, 4) for _ in range(n)]])])
+        ub2 = np.concatenate([val, b if len(b) else np.array([dy(rng, 1, 3, 4)])])
+        lb2 = np.concatenate([val, np.full(len(ub2) - 1, -INF)])
+        return (lambda: solve(f, x0, Bounds(lb, ub), [LinearConstraint(A2, lb2, ub2)] + nl, opts, ident),
+                lambda: solve(f, x0, Bounds(lb, ub), [LinearConstraint(A2[:1], lb2[:1], ub2[:1]), LinearConstraint(A2[1:], lb2[1:], ub2[1:])] + nl, opts, ident))
     if kind == "fixed":
         fixed = np.zeros(n, bool)
         fixed[rng.choice(n, size=int(rng.integers(1, n)), replace=False)] = True
@@ -139,7 +148,7 @@ def make_pair(rng, kind, P):
     raise ValueError(kind)
 
 
-KINDS = ["bounds-form", "dict", "two-sided-linear", "two-sided-nonlinear", "regroup", "fixed", "scale"]
+KINDS = ["bounds-form", "dict", "two-sided-linear", "two-sided-nonlinear", "regroup", "regroup-mixed", "fixed", "scale"]
 
 
 def residual_check(rng, P):
@@ -167,7 +176,7 @@ def residual_check(rng, P):
 
 def run(chk, rng, replay=None):
     ok, info = proof_stage(chk, MODULES)
-    n_pairs = 42 if chk.tier == "quick" else 1400
+    n_pairs = 48 if chk.tier == "quick" else 1600
     fails, done, skipped = [], {k: 0 for k in KINDS}, 0
     res_checked = 0
     import random
@@ -198,7 +207,7 @@ def run(chk, rng, replay=None):
             fails.append((kind, sd, P["desc"], f"the two statements are not solved identically ({d}); nfev {a['nfev']} / {b['nfev']}"))
     chk.coverage.update({
         "evaluations": len(todo), "distinct_nontrivial": sum(done.values()),
-        "rule": "pairs of equivalent statements of a random problem with dyadic data (n 2..4; quadratic / Rosenbrock / absolute-value objective, box, 0-2 linear inequality rows, optional ball constraint): Bounds vs (n,2) array; dict vs NonlinearConstraint; one two-sided vs two one-sided constraints (linear, nonlinear); one constraint object vs the same rows split in two; variables fixed by equal bounds vs eliminated by hand; scale=True vs the explicitly rescaled unit-box problem. Compared bit-for-bit: every objective call (point mapped to the reference variables, value), x, fun, maxcv, status, nfev, nit. Non-trivial = pair actually run (both runs complete).",
+        "rule": "pairs of equivalent statements of a random problem with dyadic data (n 2..4; quadratic / Rosenbrock / absolute-value objective, box, 0-2 linear inequality rows, optional ball constraint): Bounds vs (n,2) array; dict vs NonlinearConstraint; one two-sided vs two one-sided constraints (linear, nonlinear); one constraint object vs the same rows split in two (one-sided rows; an equality row mixed with one-sided rows); variables fixed by equal bounds vs eliminated by hand; scale=True vs the explicitly rescaled unit-box problem. Compared bit-for-bit: every objective call (point mapped to the reference variables, value), x, fun, maxcv, status, nfev, nit. Non-trivial = pair actually run (both runs complete).",
         "samples": [{"kind": k, "seed": s} for k, s in todo[:3]],
         "pairs_run_by_kind": done, "pairs_skipped_not_applicable": skipped, "residual_checks": res_checked,
     })
